@@ -97,6 +97,9 @@ def check(c, r, layer_kinds, nstmts, tag, big_ok=False, huge=False):
     sess_decls = [s.decl for s in sessions]
     src_enc = ('\n'.join(head + alld + sess_decls + body_enc) + '\n').encode()
     src_ref = ('\n'.join(head + alld + body_ref) + '\n').encode()
+    if r.chance(1, 3):      # mandatory parameters (session endpoints, encap's packet, ...) by name instead of by position
+        from ..gen import Lib, name_mandatory
+        src_enc = name_mandatory(src_enc, Lib(), r, (2, 3)); c.count('named-mandatory')
     impl, model = progdiff.run_both(c, src_enc)
     progdiff.compare(c, src_enc, impl, model, 'tunnel')
     key = None
